@@ -72,6 +72,9 @@ def build_many(specs):
 
 
 # ---------------------------------------------------------------- TLC
+_linted = False
+
+
 class TlcResult:
     def __init__(self):
         self.generated = 0
@@ -96,6 +99,12 @@ def _unescape_tla(s):
 
 def run_tlc(module, cfg, env, name, workers=8, timeout=600, simulate=None, heap='8g', coverage=False):
     """Runs TLC; a StackOverflowError inside TLC (frame sizes depend on JIT timing) is retried, never a verdict."""
+    global _linted
+    if not _linted:
+        r = subprocess.run([sys.executable, os.path.join(ROOT, 'tools', 'lint_names.py')], capture_output=True, text=True)
+        if r.returncode != 0:
+            raise Infra('spec lint failed (a library identifier equals a state variable name: TLC would silently stop caching constants):\n' + r.stdout[-1500:])
+        _linted = True
     last = None
     for attempt in range(3):
         r = _run_tlc(module, cfg, env, name, workers, timeout, simulate, heap, coverage)
